@@ -88,6 +88,12 @@ def run(e: Engine, rep: Report):
              'attributes - copy() included (a reply that is re-populated '
              'after it was read would go out with the old text / ESC)')
     w8(e, rep)
+    rep.rule('W9', 'what the message getter renders is a fixed point of the '
+             'message setter: wherever the rendered text starts with the '
+             'enhanced status code, the code is followed by a separator '
+             'that message_esc_pattern (regex syntax tree) takes after its '
+             'code group - a bare code would be read back as text')
+    w9(e, rep)
     rep.floor('W2', 4, 'framing agreement obligations')
 
 
@@ -211,6 +217,24 @@ def w2(e: Engine, rep: Report):
         return
     sep_items = rx.find_group(items, sep_g)
     sep_set = rx.fixed_charsets(sep_items, pat[1]) if sep_items else None
+    if sep_items and len(sep_items) == 1 and \
+            sep_items[0][0] in (sc.MAX_REPEAT, sc.MIN_REPEAT):
+        lo, hi, sub = sep_items[0][1]
+        rep.evaluations += 1
+        mod = e.p.modules['slimta.smtp.io']
+        rep.check(lo >= 1, 'W2', 'slimta.smtp.io.reply_line_pattern',
+                  'the separator group matches exactly one character',
+                  'the separator group of reply_line_pattern (%r) can match '
+                  'nothing: the three digits are no longer delimited, so '
+                  '`2500 ok` or `250x` is read as code 250 with the rest '
+                  'as text instead of being refused as a bad reply'
+                  % pat[0], loc='%s:%d' % (mod.relpath, pat[2].lineno),
+                  reason='one separator character is required')
+        if lo == 1 and hi == 1:
+            sep_set = rx.fixed_charsets(list(sub), pat[1])
+        elif lo == 0:
+            # judged above; the remaining obligations use the class itself
+            sep_set = rx.fixed_charsets(list(sub), pat[1])
     # terminator alternatives of the pattern: trailing items after the
     # outermost text group
     tail = []
@@ -922,3 +946,103 @@ def w8(e: Engine, rep: Report):
                           name, sorted(touched), a, a),
                       loc='%s:%d' % (c.module.relpath, f.lineno),
                       reason='writes self.%s too' % a)
+
+
+# ---------------------------------------------------------------------- W9
+def w9(e: Engine, rep: Report):
+    c = e.p.cls(REPLY)
+    getter = c.methods.get('message')
+    pat = rx.module_pattern(e, 'slimta.smtp.reply', 'message_esc_pattern')
+    if getter is None or getter.kind != 'property' or pat is None:
+        rep.unknown('W9', REPLY + '.message', 'rendered ESC is delimited',
+                    'cannot read the message getter / message_esc_pattern',
+                    loc=None)
+        return
+    ctx = e.method_ctx(REPLY, 'message')
+    g = e.build(ctx, raises=lambda b, n, r: set())
+    where = getter.qname
+    rep.functions.add(where)
+    sc = rx._consts()
+    items = list(rx.parse(pat[0], pat[1]))
+    # what follows the code group in the pattern
+    tail, seen = [], False
+    for it in items:
+        if it[0] == sc.SUBPATTERN and not seen:
+            seen = True
+            continue
+        if seen:
+            tail.append(it)
+    escs = {t.id for a in walk_own(getter.node) if isinstance(a, ast.Assign)
+            and 'enhanced_status_code' in ast.unparse(a.value) or
+            isinstance(a, ast.Assign) and '_esc' in ast.unparse(a.value)
+            for t in a.targets if isinstance(t, ast.Name)}
+
+    def is_esc(x):
+        return (isinstance(x, ast.Name) and x.id in escs) or (
+            isinstance(x, ast.Attribute) and
+            x.attr in ('enhanced_status_code', '_esc'))
+    n = 0
+    for r in g.of_kind('stmt'):
+        if not (isinstance(r.ast, ast.Return) and r.ast.value is not None):
+            continue
+        v = r.ast.value
+        if not any(is_esc(x) for x in ast.walk(v)):
+            continue
+        n += 1
+        rep.evaluations += 1
+        # shape: esc, literal separator, rest
+        segs = []
+
+        def flat(y):
+            if isinstance(y, ast.Constant) and isinstance(y.value, str):
+                segs.append(('lit', y.value))
+            elif isinstance(y, ast.BinOp) and isinstance(y.op, ast.Add):
+                flat(y.left)
+                flat(y.right)
+            elif isinstance(y, ast.Call) and \
+                    isinstance(y.func, ast.Attribute) and \
+                    y.func.attr == 'join' and \
+                    isinstance(y.func.value, ast.Constant) and \
+                    len(y.args) == 1 and \
+                    isinstance(y.args[0], (ast.Tuple, ast.List)):
+                for i, el in enumerate(y.args[0].elts):
+                    if i:
+                        segs.append(('lit', y.func.value.value))
+                    flat(el)
+            elif isinstance(y, ast.JoinedStr):
+                for part in y.values:
+                    if isinstance(part, ast.FormattedValue):
+                        flat(part.value)
+                    else:
+                        flat(part)
+            else:
+                segs.append(('esc' if is_esc(y) else 'opaque', y))
+        flat(v)
+        ok, why = True, ''
+        for i, (k, x) in enumerate(segs):
+            if k != 'esc':
+                continue
+            nxt = segs[i + 1] if i + 1 < len(segs) else None
+            if nxt is None or nxt[0] != 'lit' or not nxt[1]:
+                ok, why = False, 'nothing'
+                continue
+            try:
+                ends = rx.match_ends(tail, nxt[1], pat[1], 0)
+            except ValueError:
+                ends = {len(nxt[1])}
+            if not ends:
+                ok, why = False, repr(nxt[1])
+        rep.check(ok, 'W9', where,
+                  '`%s`: the code is followed by a separator' % ' '.join(
+                      ast.unparse(r.ast).split())[:50],
+                  'the getter renders the enhanced status code followed by '
+                  '%s, which message_esc_pattern (%r) does not take after '
+                  'its code group: the reading side stores the code as '
+                  'text and resets the ESC - the reply reports '
+                  '"2.0.0 2.0.0" instead of what was sent' % (why, pat[0]),
+                  loc=r.loc(), reason='separator accepted by the setter\'s '
+                  'pattern')
+    if n < 1:
+        rep.unknown('W9', where, 'rendered ESC is delimited',
+                    'no return of the getter mentions the enhanced status '
+                    'code', loc=getter.loc())
